@@ -212,11 +212,16 @@ impl Cqueue {
         }
 
         use generator::Error;
-        match self.selectors.lock().unwrap()[id]
+        // take the handle out and release the lock before waiting for the
+        // coroutine and before re-raising its panic: a guard that is alive
+        // while we park or unwind would poison the lock
+        let handle = self
+            .selectors
+            .lock()
+            .unwrap_or_else(|e| e.into_inner())[id]
             .take()
-            .expect("join handler not set")
-            .join()
-        {
+            .expect("join handler not set");
+        match handle.join() {
             Ok(_) => {}
             Err(panic) => {
                 if let Some(err) = panic.downcast_ref::<Error>() {
@@ -292,7 +297,7 @@ impl Drop for Cqueue {
         // first cancel all the select coroutines if they are running
         self.selectors
             .lock()
-            .unwrap()
+            .unwrap_or_else(|e| e.into_inner())
             .iter()
             .map(|j| j.as_ref())
             .fold((), |_, join| match join {
